@@ -560,3 +560,231 @@ Proof.
         rewrite as_u32_small by (unfold u32_max; lia). lia.
   - rewrite <- Arm. apply Acc; [exact Er|left; reflexivity|intros; discriminate|left; reflexivity].
 Qed.
+
+(** * Date-time level *)
+(** the timestamp of the wall clock is the (UTC) timestamp of the date-time plus its offset *)
+Lemma local_timestamp z l y o : P4.dtz_ok z -> overflowing_naive_local z = Val l -> repr y o (nd_date l) ->
+  exists tu, dt_timestamp (dz_utc z) = Val tu /\ dt_timestamp l = Val (tu + dz_off z) /\
+             P4.time_ok (nd_time l) /\ Time.tfrac (nd_time l) = Time.tfrac (nd_time (dz_utc z)) /\
+             in_i64 tu = true /\ dn_in_range (day_of_secs tu) = true /\
+             tu mod 60 = Time.tsecs (nd_time (dz_utc z)) mod 60.
+Proof.
+  intros Hz Hl H. destruct (P4D.overflowing_naive_local_u z Hz) as (l' & Hl' & Hw & Hu & Hf).
+  rewrite Hl in Hl'. injection Hl' as <-. destruct Hw as [_ Htl].
+  destruct Hz as [[Hnom Htu] Ho]. destruct (P4D.repr_of_nominal _ Hnom) as (yu & ou & Hru).
+  destruct (dz_utc z) as [du tu] eqn:Eu. destruct l as [dl tl]. cbn [nd_date nd_time] in *.
+  unfold P4.wall, P4.usecs, P4.frac in Hu, Hf. rewrite Eu in Hu. cbn [nd_date nd_time] in Hu, Hf.
+  rewrite (P4D.dn_of_repr _ _ _ H), (P4D.dn_of_repr _ _ _ Hru) in Hu.
+  destruct Htu as [Hsu Hfu]. destruct Htl as [Hsl Hfl].
+  exists (secs_at yu ou (Time.tsecs tu)).
+  rewrite (dt_timestamp_val yu ou du tu Hru Hsu), (dt_timestamp_val y o dl tl H Hsl).
+  pose proof (secs_at_i64 yu ou du _ Hru Hsu) as Hb.
+  destruct (secs_at_day yu ou (Time.tsecs tu) Hsu) as [Ed Em].
+  split; [reflexivity|]. split; [f_equal; unfold secs_at; lia|]. split; [split; assumption|]. split; [exact Hf|].
+  split; [unfold in_i64, in_range, i64_min, i64_max; lia|]. split; [rewrite Ed; exact (repr_dn_in_range _ _ _ Hru)|].
+  unfold secs_at. lia.
+Qed.
+
+Definition offset_field_ok (ofs : option Z) (off : Z) : Prop := ofs = Some off \/ (ofs = None /\ off = 0).
+
+(** COMPLETENESS of [to_datetime] through the timestamp arm: [z] a well-formed date-time whose wall
+    clock [l] lies on a supported date; the fields alone do not resolve (softly), every supplied
+    field is that of the wall clock, the timestamp field is the timestamp of [z], the offset field
+    is the offset of [z] (or absent for offset 0): the result is exactly [z] *)
+Theorem datetime_by_timestamp z l y o p rd rt g :
+  P4.dtz_ok z -> overflowing_naive_local z = Val l -> repr y o (nd_date l) -> typed p ->
+  to_naive_date p = Val rd -> to_naive_time p = Val rt -> soft rd rt = true ->
+  date_sound p (nd_date l) -> time_sound p (nd_time l) -> stamp_time_ok p (nd_time l) ->
+  group_ok (fst (iso_of_dn (dn_of_yo y o))) (p_isoyear p) (p_isoyear_div_100 p) (p_isoyear_mod_100 p) ->
+  p_timestamp p = Some g -> dt_timestamp (dz_utc z) = Val g ->
+  offset_field_ok (p_offset p) (dz_off z) ->
+  to_datetime p = Val (Ok z).
+Proof.
+  intros Hz Hl H T Hrd Hrt Hsoft DS TS ST Gi Eg Hg Hofs.
+  destruct (local_timestamp z l y o Hz Hl H) as (tu & Htu & Htl & _). rewrite Hg in Htu. injection Htu as <-.
+  assert (N : to_naive_datetime_with_offset p (dz_off z) = Val (Ok l)).
+  { apply (naive_datetime_by_timestamp y o l p (dz_off z) rd rt H T Hrd Hrt Hsoft DS TS ST Gi).
+    exists g, (g + dz_off z). split; [exact Eg|]. split; [exact Htl|]. left. lia. }
+  unfold to_datetime.
+  assert (Eoff : match p_offset p, p_timestamp p with
+                 | Some off, _ => Ok off | None, Some _ => Ok 0 | None, None => Err NotEnough end = Ok (dz_off z)).
+  { rewrite Eg. destruct Hofs as [-> | [-> ->]]; reflexivity. }
+  rewrite Eoff. cbn [ebind bind]. rewrite N. cbn [ebind bind].
+  unfold ok_or. rewrite east_opt_spec. pose proof (proj2 Hz) as Ho. unfold P4.off_ok in Ho.
+  replace ((-86400 <? dz_off z) && (dz_off z <? 86400)) with true by lia. cbn [ebind bind].
+  rewrite (P4D.utc_local_utc_u z l Hz Hl). reflexivity.
+Qed.
+
+(** ... and of [to_datetime_with_timezone] with the zone of [z] (offset field absent or equal) *)
+Theorem datetime_with_timezone_by_timestamp z l y o p rd rt g :
+  P4.dtz_ok z -> overflowing_naive_local z = Val l -> repr y o (nd_date l) -> typed p ->
+  to_naive_date p = Val rd -> to_naive_time p = Val rt -> soft rd rt = true ->
+  date_sound p (nd_date l) -> time_sound p (nd_time l) -> stamp_time_ok p (nd_time l) ->
+  group_ok (fst (iso_of_dn (dn_of_yo y o))) (p_isoyear p) (p_isoyear_div_100 p) (p_isoyear_mod_100 p) ->
+  p_timestamp p = Some g -> dt_timestamp (dz_utc z) = Val g ->
+  (p_offset p = None \/ p_offset p = Some (dz_off z)) ->
+  to_datetime_with_timezone p (dz_off z) = Val (Ok z).
+Proof.
+  intros Hz Hl H T Hrd Hrt Hsoft DS TS ST Gi Eg Hg Hofs.
+  destruct (local_timestamp z l y o Hz Hl H) as (tu & Htu & Htl & _ & _ & Hi & Hr & _). rewrite Hg in Htu. injection Htu as <-.
+  assert (N : to_naive_datetime_with_offset p (dz_off z) = Val (Ok l)).
+  { apply (naive_datetime_by_timestamp y o l p (dz_off z) rd rt H T Hrd Hrt Hsoft DS TS ST Gi).
+    exists g, (g + dz_off z). split; [exact Eg|]. split; [exact Htl|]. left. lia. }
+  unfold to_datetime_with_timezone. rewrite Eg.
+  destruct ST as (_ & _ & Hnano).
+  unfold ok_or_r, ok_or. rewrite dt_from_timestamp_val by (try exact Hi; lia). rewrite Hr. cbn [bind ebind].
+  rewrite N. cbn [ebind bind]. rewrite (P4D.utc_local_utc_u z l Hz Hl). cbn [bind].
+  destruct Hofs as [-> | ->]; [reflexivity|]. rewrite Z.eqb_refl. reflexivity.
+Qed.
+
+(** * The corollaries for a state that holds just the timestamp [, second [, nanosecond]] [, offset] *)
+(** the second field: 60 for a leap-second value; otherwise absent or the value's second *)
+Definition second_field_ok (sec : option Z) (t : Time.ntime) : Prop :=
+  if Time.tfrac t >=? 1000000000 then sec = Some 60 else (sec = None \/ sec = Some (Time.tsecs t mod 60)).
+(** the nanosecond field: the value's fraction (absent: the fraction is 0) *)
+Definition nano_field_ok (nano : option Z) (t : Time.ntime) : Prop :=
+  unwrap_or nano 0 = Time.tfrac t mod 1000000000.
+(** the leap-second form sits on second 59 *)
+Definition leap_on_59 (t : Time.ntime) : Prop := 1000000000 <= Time.tfrac t -> Time.tsecs t mod 60 = 59.
+
+Lemma stamp_fields_sound g sec nano ofs y o d t : repr y o d -> P4.time_ok t -> leap_on_59 t ->
+  second_field_ok sec t -> nano_field_ok nano t ->
+  date_sound (stamp_fields g sec nano ofs) d /\ time_sound (stamp_fields g sec nano ofs) t /\
+  stamp_time_ok (stamp_fields g sec nano ofs) t /\
+  group_ok (fst (iso_of_dn (dn_of_yo y o))) None None None.
+Proof.
+  intros H [Hs Hf] Hl Hsec Hnano. split; [exact (stamp_fields_date_sound g sec nano ofs y o d H)|].
+  unfold second_field_ok, nano_field_ok, leap_on_59 in *.
+  destruct t as [s f]. cbn [Time.tsecs Time.tfrac] in *. destruct (hms_vals s f Hs) as (_ & _ & Esec).
+  split; [|split].
+  - unfold time_sound. cbn [p_hour_div_12 p_hour_mod_12 p_minute p_second p_nanosecond stamp_fields].
+    split; [intros; discriminate|]. split; [intros; discriminate|]. split; [intros; discriminate|].
+    rewrite Esec. cbn [Time.nanosecond Time.tfrac]. split.
+    + intros v ->. destruct (f >=? 1000000000) eqn:Ef.
+      * injection Hsec as ->. assert (Hge : 1000000000 <= f) by lia. specialize (Hl Hge). lia.
+      * destruct Hsec as [E|E]; [discriminate|injection E as <-; lia].
+    + intros n ->. cbn [unwrap_or] in Hnano. exact Hnano.
+  - unfold stamp_time_ok. cbn [Time.tsecs Time.tfrac p_second p_nanosecond stamp_fields].
+    split; [split; assumption|]. split; [|exact Hnano].
+    intros Hge. split; [exact (Hl Hge)|]. replace (f >=? 1000000000) with true in Hsec by lia. exact Hsec.
+  - left. auto.
+Qed.
+
+(** every supported NaiveDateTime [v] -- whole seconds, with a fraction, or the leap-second form --
+    and every offset argument: the state holding [timestamp = v's timestamp - offset] resolves to [v] *)
+Theorem naive_datetime_of_stamp y o v off g sec nano ofs :
+  repr y o (nd_date v) -> P4.time_ok (nd_time v) -> leap_on_59 (nd_time v) ->
+  dt_timestamp v = Val (g + off) -> in_i64 g = true ->
+  second_field_ok sec (nd_time v) -> nano_field_ok nano (nd_time v) ->
+  (forall x, ofs = Some x -> in_i32 x = true) ->
+  to_naive_datetime_with_offset (stamp_fields g sec nano ofs) off = Val (Ok v).
+Proof.
+  intros H Ht Hl Hts Hg Hsec Hnano Hofs.
+  destruct (stamp_fields_sound g sec nano ofs y o _ _ H Ht Hl Hsec Hnano) as (DS & TS & ST & Gi).
+  destruct (stamp_fields_first_try g sec nano ofs) as [Hd Htm].
+  apply (naive_datetime_by_timestamp y o v _ off (Err NotEnough) (Err NotEnough) H); try assumption.
+  - apply stamp_fields_typed; try assumption.
+    + unfold second_field_ok in Hsec. intros x ->. destruct (Time.tfrac (nd_time v) >=? 1000000000).
+      * injection Hsec as ->. lia.
+      * destruct Hsec as [E|E]; [discriminate|injection E as ->; lia].
+    + unfold nano_field_ok in Hnano. intros n ->. cbn [unwrap_or] in Hnano. lia.
+  - reflexivity.
+  - exists g, (g + off). split; [reflexivity|]. split; [exact Hts|]. left. lia.
+Qed.
+
+(** [z] a well-formed DateTime<FixedOffset> with wall clock [l] on a supported date (the second and
+    the leap-second form are those of the wall clock: an offset need not be a whole minute): the
+    state holding the timestamp of [z] [, second [, nanosecond]] and its offset resolves to [z] *)
+Theorem datetime_of_stamp z l y o g sec nano ofs :
+  P4.dtz_ok z -> overflowing_naive_local z = Val l -> repr y o (nd_date l) -> leap_on_59 (nd_time l) ->
+  dt_timestamp (dz_utc z) = Val g ->
+  second_field_ok sec (nd_time l) -> nano_field_ok nano (nd_time l) -> offset_field_ok ofs (dz_off z) ->
+  to_datetime (stamp_fields g sec nano ofs) = Val (Ok z).
+Proof.
+  intros Hz Hl H Hleap Hg Hsec Hnano Hofs.
+  destruct (local_timestamp z l y o Hz Hl H) as (tu & Htu & _ & Htl & _ & Hi & _). rewrite Hg in Htu. injection Htu as <-.
+  destruct (stamp_fields_sound g sec nano ofs y o _ _ H Htl Hleap Hsec Hnano) as (DS & TS & ST & Gi).
+  destruct (stamp_fields_first_try g sec nano ofs) as [Hd Htm].
+  apply (datetime_by_timestamp z l y o _ (Err NotEnough) (Err NotEnough) g Hz Hl H); try assumption; try reflexivity.
+  apply stamp_fields_typed; try assumption.
+  - unfold second_field_ok in Hsec. intros x ->. destruct (Time.tfrac (nd_time l) >=? 1000000000).
+    + injection Hsec as ->. lia.
+    + destruct Hsec as [E|E]; [discriminate|injection E as ->; lia].
+  - unfold nano_field_ok in Hnano. intros n ->. cbn [unwrap_or] in Hnano. lia.
+  - intros x ->. destruct Hofs as [E|[E _]]; [|discriminate]. injection E as ->. apply off_ok_i32. exact (proj2 Hz).
+Qed.
+
+Theorem datetime_with_timezone_of_stamp z l y o g sec nano ofs :
+  P4.dtz_ok z -> overflowing_naive_local z = Val l -> repr y o (nd_date l) -> leap_on_59 (nd_time l) ->
+  dt_timestamp (dz_utc z) = Val g ->
+  second_field_ok sec (nd_time l) -> nano_field_ok nano (nd_time l) -> (ofs = None \/ ofs = Some (dz_off z)) ->
+  to_datetime_with_timezone (stamp_fields g sec nano ofs) (dz_off z) = Val (Ok z).
+Proof.
+  intros Hz Hl H Hleap Hg Hsec Hnano Hofs.
+  destruct (local_timestamp z l y o Hz Hl H) as (tu & Htu & _ & Htl & _ & Hi & _). rewrite Hg in Htu. injection Htu as <-.
+  destruct (stamp_fields_sound g sec nano ofs y o _ _ H Htl Hleap Hsec Hnano) as (DS & TS & ST & Gi).
+  destruct (stamp_fields_first_try g sec nano ofs) as [Hd Htm].
+  apply (datetime_with_timezone_by_timestamp z l y o _ (Err NotEnough) (Err NotEnough) g Hz Hl H); try assumption; try reflexivity.
+  apply stamp_fields_typed; try assumption.
+  - unfold second_field_ok in Hsec. intros x ->. destruct (Time.tfrac (nd_time l) >=? 1000000000).
+    + injection Hsec as ->. lia.
+    + destruct Hsec as [E|E]; [discriminate|injection E as ->; lia].
+  - unfold nano_field_ok in Hnano. intros n ->. cbn [unwrap_or] in Hnano. lia.
+  - intros x ->. destruct Hofs as [E|E]; [discriminate|]. injection E as ->. apply off_ok_i32. exact (proj2 Hz).
+Qed.
+
+(** DateTime<Utc>: the wall clock is the value itself *)
+Lemma utc_local v : P4.ndt_ok v -> overflowing_naive_local (mk_dtz v 0) = Val v.
+Proof.
+  intros Hv. assert (Hz : P4.dtz_ok (mk_dtz v 0)) by (split; [exact Hv|unfold P4.off_ok; cbn; lia]).
+  destruct (P4D.overflowing_naive_local_u _ Hz) as (l & Hl & Hw & Hu & Hf). rewrite Hl. f_equal.
+  apply (P4.ndt_wide_inj P4D.HD); [exact Hw|apply P4.ndt_ok_wide; exact Hv| |exact Hf].
+  unfold P4.wall in Hu. cbn [dz_utc dz_off] in Hu. lia.
+Qed.
+
+Theorem utc_datetime_of_stamp y o v g sec nano ofs :
+  repr y o (nd_date v) -> P4.time_ok (nd_time v) -> leap_on_59 (nd_time v) ->
+  dt_timestamp v = Val g ->
+  second_field_ok sec (nd_time v) -> nano_field_ok nano (nd_time v) -> (ofs = None \/ ofs = Some 0) ->
+  to_datetime (stamp_fields g sec nano ofs) = Val (Ok (mk_dtz v 0)) /\
+  to_datetime_with_timezone (stamp_fields g sec nano ofs) 0 = Val (Ok (mk_dtz v 0)).
+Proof.
+  intros H Ht Hleap Hg Hsec Hnano Hofs.
+  assert (Hv : P4.ndt_ok v) by (split; [exact (P4D.nominal_of_repr _ _ _ H)|exact Ht]).
+  assert (Hz : P4.dtz_ok (mk_dtz v 0)) by (split; [exact Hv|unfold P4.off_ok; cbn; lia]).
+  pose proof (utc_local v Hv) as Hl. split.
+  - apply (datetime_of_stamp (mk_dtz v 0) v y o g sec nano ofs Hz Hl H Hleap Hg Hsec Hnano).
+    unfold offset_field_ok. cbn [dz_off]. destruct Hofs as [-> | ->]; [right; auto|left; reflexivity].
+  - apply (datetime_with_timezone_of_stamp (mk_dtz v 0) v y o g sec nano ofs Hz Hl H Hleap Hg Hsec Hnano).
+    cbn [dz_off]. exact Hofs.
+Qed.
+
+(** * The hypotheses are inhabited *)
+(** 1969-12-31T23:59:59 (timestamp -1), 2012-06-30T23:59:59 + leap second with half a second, and a
+    date-time with the offset +05:30:15 whose wall-clock second differs from the UTC second *)
+Definition ex_neg : ndt := mk_ndt (mkdate 1969 365) (Time.mk_time 86399 0).
+Definition ex_leap : ndt := mk_ndt (mkdate 2012 182) (Time.mk_time 86399 1500000000).
+Definition ex_odd_zone : dtz := mk_dtz (mk_ndt (mkdate 2014 364) (Time.mk_time 68200 0)) 19815.
+Lemma ex_stamp_inhabited :
+  repr 1969 365 (nd_date ex_neg) /\ P4.time_ok (nd_time ex_neg) /\ leap_on_59 (nd_time ex_neg) /\
+  dt_timestamp ex_neg = Val (-1) /\ second_field_ok None (nd_time ex_neg) /\ nano_field_ok None (nd_time ex_neg) /\
+  to_datetime (stamp_fields (-1) None None None) = Val (Ok (mk_dtz ex_neg 0)) /\
+  repr 2012 182 (nd_date ex_leap) /\ P4.time_ok (nd_time ex_leap) /\ leap_on_59 (nd_time ex_leap) /\
+  second_field_ok (Some 60) (nd_time ex_leap) /\ nano_field_ok (Some 500000000) (nd_time ex_leap) /\
+  to_naive_datetime_with_offset (stamp_fields 1341100799 (Some 60) (Some 500000000) None) 0 = Val (Ok ex_leap) /\
+  to_naive_datetime_with_offset (stamp_fields 1341100800 (Some 60) (Some 500000000) None) 0 = Val (Ok ex_leap) /\
+  to_naive_datetime_with_offset (stamp_fields 1341100801 (Some 60) None None) 0 = Val (Err Impossible) /\
+  P4.dtz_ok ex_odd_zone /\
+  to_datetime (stamp_fields 1419965800 (Some 55) None (Some 19815)) = Val (Ok ex_odd_zone).
+Proof.
+  assert (R1 : repr 1969 365 (nd_date ex_neg)) by (apply repr_mk; reflexivity).
+  assert (R2 : repr 2012 182 (nd_date ex_leap)) by (apply repr_mk; reflexivity).
+  split; [exact R1|]. split; [unfold P4.time_ok; cbn; lia|]. split; [unfold leap_on_59; cbn; lia|].
+  split; [vm_compute; reflexivity|]. split; [cbn; left; reflexivity|]. split; [reflexivity|].
+  split; [vm_compute; reflexivity|].
+  split; [exact R2|]. split; [unfold P4.time_ok; cbn; lia|]. split; [unfold leap_on_59; cbn; lia|].
+  split; [reflexivity|]. split; [reflexivity|].
+  split; [vm_compute; reflexivity|]. split; [vm_compute; reflexivity|]. split; [vm_compute; reflexivity|].
+  split; [|vm_compute; reflexivity].
+  split; [split; [apply (P4D.nominal_of_repr 2014 364); apply repr_mk; reflexivity|]|]; unfold P4.time_ok, P4.off_ok; cbn; lia.
+Qed.
